@@ -793,7 +793,7 @@ CHECKS["C07"] = {
     "sub": "c07",
     "runner": derive_check,
     "builtin_too": True,
-    "values": {"quick": 2000, "thorough": 30000},
+    "values": {"quick": 5000, "thorough": 30000},
     "engine": "vmain+vgen",
     "level": "exploration",
     "technique": "runtime monitoring: len() vs bytes actually written, exact-size and one-byte-short slice experiments",
@@ -858,7 +858,7 @@ DERIVE_RULE = "programs: type definitions drawn from a schema grammar (named/tup
 CHECKS["C08"] = {
     "sub": "c08",
     "runner": derive_check,
-    "values": {"quick": 2000, "thorough": 30000},
+    "values": {"quick": 5000, "thorough": 30000},
     "engine": "vgen",
     "level": "exploration",
     "technique": "runtime monitoring of generated programs: derived Encode output vs a reference encoder that interprets the schema description",
@@ -871,7 +871,7 @@ CHECKS["C08"] = {
 CHECKS["C09"] = {
     "sub": "c09",
     "runner": derive_check,
-    "values": {"quick": 2000, "thorough": 30000},
+    "values": {"quick": 5000, "thorough": 30000},
     "engine": "vgen",
     "level": "exploration",
     "technique": "runtime monitoring of generated programs: derived Decode of the derived encoding vs view equality, position, provenance of borrowed fields; re-framed and corrupted encodings",
@@ -884,7 +884,7 @@ CHECKS["C09"] = {
 CHECKS["C10"] = {
     "sub": "c10",
     "runner": derive_check,
-    "values": {"quick": 1500, "thorough": 20000},
+    "values": {"quick": 4000, "thorough": 20000},
     "engine": "vgen",
     "level": "exploration",
     "technique": "runtime monitoring of generated program pairs: reader result vs a compatibility projection over two schema descriptions",
